@@ -192,6 +192,11 @@ def check(pid, tier="quick", seed=None, only_cases=None):
         if has_model and m[0] in ("ABORT", "TIMEOUT", "NOMODE", "BADINPUT"):
             machinery_broken.append("model failed to run case %s: %s" % (c.line()[:80], m))
             has_model = False
+        if has_model and hasattr(P, "model_broken"):
+            why = P.model_broken(c, m)      # e.g. an oracle-table miss inside the model: machinery, not the code
+            if why:
+                machinery_broken.append("model could not evaluate case %s: %s" % (c.line()[:80], why))
+                has_model = False
         corr = (not has_model) or same(r, m)
         if reason is None and corr:
             stats["pass"] += 1
